@@ -616,9 +616,10 @@ type Contracts struct {
 	Lemmas []*Lemma
 	Ghosts map[string]*GhostDecl
 	Axioms []*Clause
+	Patterns map[string]string // package-level literal (regexp pattern or byte constant) the assumed contracts were written for
 }
 
-var kwRe = regexp.MustCompile(`^(func|extern|requires|ensures|modifies|loop|spec|pred|lemma|ghost|at-return|option|axiom|pure|induction|uses|gvar|update|ghostresult|assert)\b`)
+var kwRe = regexp.MustCompile(`^(func|extern|requires|ensures|modifies|loop|spec|pred|lemma|ghost|at-return|option|axiom|pure|induction|uses|gvar|update|ghostresult|assert|pattern)\b`)
 var tagRe = regexp.MustCompile(`^\[([^\]]*)\]\s*`)
 
 func newContracts() *Contracts {
@@ -972,6 +973,20 @@ func (cs *Contracts) parseFile(path, pkg string) error {
 			g.Params = parseParams(rest[i+1 : j])
 			g.Ret = strings.TrimSpace(rest[j+1:])
 			cs.Ghosts[g.Name] = g
+		case "pattern":
+			// pattern <pkg>.<var> "<go string literal>"
+			sp := strings.IndexByte(rest, ' ')
+			if sp < 0 {
+				return fail(fmt.Errorf("bad pattern clause"))
+			}
+			val, err := strconv.Unquote(strings.TrimSpace(rest[sp+1:]))
+			if err != nil {
+				return fail(fmt.Errorf("bad pattern literal: %v", err))
+			}
+			if cs.Patterns == nil {
+				cs.Patterns = map[string]string{}
+			}
+			cs.Patterns[strings.TrimSpace(rest[:sp])] = val
 		case "axiom":
 			c := &Clause{Kind: "axiom", File: path, Line: it.line}
 			rest = c.takeTags(rest)
